@@ -155,3 +155,38 @@ contract(
                  "dtype_lo(obj) < 0 and dtype_hi(obj) >= upper_bound and dtype_hi(obj) >= n_cities"
                  " and shape(obj, 0) == n_cities and shape(obj, 1) == n_cities")],
 )
+
+
+# ---- the bounds travel unchanged from the loop to the attributes and on to the objective (C05)
+contract(
+    TI + ":Instance.__new__#lower",
+    props="C05",
+    block=("assign tour_length_lower_bound #0", "assign tour_length_lower_bound #0"),
+    params={"tour_length_lower_bound": PYINT, "lower_bound_2": PYINT},
+    i64=False,
+    requires=["tour_length_lower_bound >= 0 and lower_bound_2 >= 0"],
+    opaque={"check_int_range": contract("<opaque>:check_int_range4", params={"v": PYINT, "name": OBJ, "lo": PYINT, "hi": PYINT},
+                                        returns=PYINT, ensures=["result == v and lo <= v and v <= hi"],
+                                        assumptions=["pycommons.check_int_range returns its argument if it lies in [lo, hi]"])},
+    # one-sided: with the caller's bound at its default 0 the stored lower bound is at most the sum of the row minima
+    ensures=[tag("C05", "lower-bound-at-most-the-larger-of-given-and-derived",
+                 "tour_length_lower_bound <= max(old(tour_length_lower_bound), lower_bound_2)")],
+)
+contract(
+    TI + ":Instance.__new__#attributes",
+    props="C05",
+    block=("assign obj.name #0", "assign obj.is_symmetric #0"),
+    params={"use_name": OBJ, "n_cities": PYINT, "tour_length_lower_bound": PYINT, "upper_bound": PYINT, "is_symmetric": BOOL},
+    i64=False,
+    ensures=[tag("C05", "bounds-and-flag-stored-as-computed",
+                 "obj.tour_length_lower_bound <= tour_length_lower_bound and obj.tour_length_upper_bound >= upper_bound"
+                 " and obj.is_symmetric == is_symmetric and obj.n_cities == n_cities")],
+)
+TLM = "moptipyapps.tsp.tour_length"
+_TL_ATTRS = {"self.instance.tour_length_lower_bound": "LB", "self.instance.tour_length_upper_bound": "UB"}
+contract(TLM + ":TourLength.lower_bound", props="C05", params={}, ghosts={"LB": PYINT, "UB": PYINT}, i64=False, returns=PYINT,
+         attrs=_TL_ATTRS, requires=["0 <= LB and LB <= UB"],
+         ensures=[tag("C05", "declared-lower-bound-is-the-instance's", "result <= LB")])
+contract(TLM + ":TourLength.upper_bound", props="C05", params={}, ghosts={"LB": PYINT, "UB": PYINT}, i64=False, returns=PYINT,
+         attrs=_TL_ATTRS, requires=["0 <= LB and LB <= UB"],
+         ensures=[tag("C05", "declared-upper-bound-is-the-instance's", "result >= UB")])
